@@ -457,6 +457,37 @@ static void run_file(Ctx& cx, const std::string& path, const Expect& ex) {
                 }
                 if (loaded != want) viol(cx, "raw", "cell-set", {}, fmt("new file holds %zu cells, expected the %zu cells of the dependency closure", loaded.size(), want.size()), rp);
                 back.free_all();
+                if (order <= 0) {
+                    // the SAME raw-cell objects copied into a second file (a raw cell may be placed in any number of files)
+                    std::string out2 = R->scratch + fmt("/c17raw2.%d.gds", (int)getpid());
+                    tm t3 = FIXED_TM;
+                    if (via == 0) {
+                        Library rl2 = {};
+                        rl2.init("RAWLIB2", full.unit, full.precision);
+                        for (RawCell* rc : seq) rl2.rawcell_array.append(rc);
+                        if (rl2.write_gds(out2.c_str(), 0, &t3) != ErrorCode::NoError) viol(cx, "raw", "write", {{"second_copy", jbool(true)}}, "second write_gds of the same raw cells failed", rp);
+                        rl2.clear();
+                    } else {
+                        ErrorCode we2 = ErrorCode::NoError;
+                        GdsWriter wr2 = gdswriter_init(out2.c_str(), "RAWLIB2", full.unit, full.precision, 0, &t3, &we2);
+                        for (RawCell* rc : seq) if (wr2.write_rawcell(*rc) != ErrorCode::NoError) viol(cx, "raw", "write", {{"second_copy", jbool(true)}}, "second write_rawcell failed", rp);
+                        wr2.close();
+                    }
+                    ErrorCode le2 = ErrorCode::NoError;
+                    Library back2 = read_gds(out2.c_str(), 0, 1e-2, NULL, &le2);
+                    std::set<std::string> loaded2;
+                    for (uint64_t i = 0; i < back2.cell_array.count; i++) {
+                        Cell* b = back2.cell_array[i];
+                        loaded2.insert(b->name);
+                        Cell* o = full.get_cell(b->name);
+                        if (o && cell_dump_filtered(*o, NULL) != cell_dump_filtered(*b, NULL)) viol(cx, "raw", "content", {{"cell", jstr(b->name)}, {"second_copy", jbool(true)}}, "cell of the second copy differs from the original", rp);
+                    }
+                    if ((int)le2 >= (int)ErrorCode::ChecksumError || loaded2 != want)
+                        viol(cx, "raw", "second-copy", {}, fmt("second file written from the same raw cells holds %zu cells (code %d), expected %zu", loaded2.size(), (int)le2, want.size()), rp);
+                    back2.free_all();
+                    unlink(out2.c_str());
+                    R->count("raw_second_copies");
+                }
                 chosen.clear();
                 for (MapItem<RawCell*>* it = raws.next(NULL); it; it = raws.next(it)) { it->value->clear(); free_allocation(it->value); }
                 raws.clear();
